@@ -41,7 +41,7 @@ Qed.
 
 (* ---------------------------------------------------------------- levels *)
 
-Definition max_q : Z :=
+Definition max_q : Z := Eval vm_compute in
   match decoder with
   | StLevel m :: _ => m
   | _ => -1
@@ -57,7 +57,9 @@ Proof.
   - destruct (Z.eq_dec z lo) as [->|Hne]; [left; reflexivity|right]. apply IH. lia.
 Qed.
 
-Definition levels : list Z := zrange 0 (Z.to_nat (max_q + 1)).
+Definition levels : list Z := Eval vm_compute in zrange 0 (Z.to_nat (max_q + 1)).
+Lemma levels_range : levels = zrange 0 (Z.to_nat (max_q + 1)).
+Proof. reflexivity. Qed.
 
 Definition level_ok (n : Z) : Prop := forall f,
   match opt_arg f (level_arg n) with
@@ -73,7 +75,7 @@ Lemma level_sets n f : 0 <= n <= max_q ->
 Proof.
   intro Hn. pose proof levels_ok as H. rewrite Forall_forall in H.
   assert (Hin : In n levels).
-  { unfold levels. apply zrange_in. rewrite Z2Nat.id by lia. lia. }
+  { rewrite levels_range. apply zrange_in. rewrite Z2Nat.id by lia. lia. }
   specialize (H n Hin f). destruct (opt_arg f (level_arg n)) as [f'|]; [|contradiction].
   exists f'. split; [reflexivity|exact H].
 Qed.
@@ -119,17 +121,26 @@ Proof. vm_compute. split; reflexivity. Qed.
 (* ---------------------------------------------------------------- single flags *)
 
 (* names handled by their own statement of the decoder (inline-all) *)
-Definition also_names : list string :=
+Definition also_names : list string := Eval vm_compute in
   flat_map (fun s => match s with StSetAlso n _ _ _ => [n] | _ => [] end) decoder.
 
 Definition is_flag (r : row) : bool := match rnat r with NFlag => true | NFloat => false end.
-Definition flag_rows : list row := filter is_flag opt_ctl.
-Definition plain_rows : list row :=
+Definition flag_rows : list row := Eval vm_compute in filter is_flag opt_ctl.
+Definition plain_rows : list row := Eval vm_compute in
   filter (fun r => negb (existsb (String.eqb (rname r)) also_names)) flag_rows.
-Definition plain_names : list string := map rname plain_rows.
+Definition plain_names : list string := Eval vm_compute in map rname plain_rows.
+Lemma plain_names_rows : plain_names = map rname plain_rows.
+Proof. reflexivity. Qed.
 
 Lemma flag_names_rows : flag_names = map rname flag_rows.
-Proof. reflexivity. Qed.
+Proof. vm_compute. reflexivity. Qed.
+
+Lemma plain_in_flag_all : Forall (fun p => In p flag_names) plain_names.
+Proof. walk_list plain_names ltac:(vm_compute; tauto). Qed.
+Lemma plain_in_flag p : In p plain_names -> In p flag_names.
+Proof. pose proof plain_in_flag_all as H. rewrite Forall_forall in H. apply H. Qed.
+Lemma plain_rows_in_ctl : Forall (fun r => In r opt_ctl) plain_rows.
+Proof. walk_list plain_rows ltac:(vm_compute; tauto). Qed.
 
 Definition toggle_arg (on : bool) (p : string) : string := "-Q" ++ (if on then "" else "no-") ++ p.
 
@@ -146,17 +157,11 @@ Proof. walk_list plain_rows ltac:(unfold toggle_ok; intro f; vm_compute; split; 
 Lemma toggles_off : Forall (toggle_ok false) flag_rows.
 Proof. walk_list flag_rows ltac:(unfold toggle_ok; intro f; vm_compute; split; reflexivity). Qed.
 
-Lemma toggle_rows_names (P : row -> Prop) rows p :
-  Forall P rows -> In p (map rname rows) -> exists r, rname r = p /\ P r.
-Proof.
-  intros H Hin. apply in_map_iff in Hin. destruct Hin as [r [Hr Hi]].
-  rewrite Forall_forall in H. exists r. split; [exact Hr|apply H; exact Hi].
-Qed.
-
 Lemma toggle_on p f : In p plain_names ->
   exists f', opt_arg f ("-Q" ++ p) = Some f' /\ shown f' = set_shown p (V 1) (shown f) /\ lvl f' = lvl f.
 Proof.
-  intro Hin. destruct (toggle_rows_names (toggle_ok true) plain_rows p toggles_on Hin) as [r [<- H]].
+  intro Hin. rewrite plain_names_rows in Hin. apply in_map_iff in Hin. destruct Hin as [r [<- Hi]].
+  pose proof toggles_on as H. rewrite Forall_forall in H. specialize (H r Hi).
   specialize (H f). change (toggle_arg true (rname r)) with ("-Q" ++ rname r) in H.
   destruct (opt_arg f ("-Q" ++ rname r)) as [f'|]; [|contradiction].
   exists f'. split; [reflexivity|exact H].
@@ -166,7 +171,8 @@ Lemma toggle_off p f : In p flag_names ->
   exists f', opt_arg f ("-Qno-" ++ p) = Some f' /\ shown f' = set_shown p (V 0) (shown f) /\ lvl f' = lvl f.
 Proof.
   intro Hin. rewrite flag_names_rows in Hin.
-  destruct (toggle_rows_names (toggle_ok false) flag_rows p toggles_off Hin) as [r [<- H]].
+  apply in_map_iff in Hin. destruct Hin as [r [<- Hi]].
+  pose proof toggles_off as H. rewrite Forall_forall in H. specialize (H r Hi).
   specialize (H f). change (toggle_arg false (rname r)) with ("-Qno-" ++ rname r) in H.
   destruct (opt_arg f ("-Qno-" ++ rname r)) as [f'|]; [|contradiction].
   exists f'. split; [reflexivity|exact H].
@@ -223,8 +229,7 @@ Proof.
   assert (H0 : 0 <= 0 <= max_q) by (vm_compute; split; discriminate).
   destruct (levels_table pre f 0 Hp H0) as [f1 [H1 [Hs1 Hl1]]].
   destruct (single_on _ f1 p H1 Hin) as [f2 [H2 [Hs2 Hl2]]].
-  exists f2. change (pre ++ [level_arg 0; "-Q" ++ p]) with (pre ++ [level_arg 0] ++ ["-Q" ++ p]).
-  rewrite app_assoc. split; [exact H2|]. rewrite Hs2, Hs1, Hl2, Hl1. split; reflexivity.
+  exists f2. rewrite <- app_assoc in H2. split; [exact H2|]. rewrite Hs2, Hs1, Hl2, Hl1. split; reflexivity.
 Qed.
 
 Lemma qmax_no_pass pre f p : opt_state pre = Some f -> In p flag_names ->
@@ -235,8 +240,7 @@ Proof.
   assert (H0 : 0 <= max_q <= max_q) by (vm_compute; split; discriminate).
   destruct (levels_table pre f max_q Hp H0) as [f1 [H1 [Hs1 Hl1]]].
   destruct (single_off _ f1 p H1 Hin) as [f2 [H2 [Hs2 Hl2]]].
-  exists f2. change (pre ++ [level_arg max_q; "-Qno-" ++ p]) with (pre ++ [level_arg max_q] ++ ["-Qno-" ++ p]).
-  rewrite app_assoc. split; [exact H2|]. rewrite Hs2, Hs1, Hl2, Hl1. split; reflexivity.
+  exists f2. rewrite <- app_assoc in H2. split; [exact H2|]. rewrite Hs2, Hs1, Hl2, Hl1. split; reflexivity.
 Qed.
 
 (* "enables exactly p" / "disables exactly p", as sets of enabled flag names *)
@@ -290,7 +294,7 @@ Qed.
 Lemma num_of_decimal m s : short_decimal s = true -> num_of m s = V (m * dec_acc 0 s).
 Proof. intro H. unfold num_of. rewrite H. reflexivity. Qed.
 
-Definition float_rows : list row := filter (fun r => negb (is_flag r)) opt_ctl.
+Definition float_rows : list row := Eval vm_compute in filter (fun r => negb (is_flag r)) opt_ctl.
 
 Definition float_ok (sep : string) (r : row) : Prop := forall f s,
   match opt_arg f ("-Q" ++ rname r ++ sep ++ s) with
@@ -309,7 +313,8 @@ Lemma inline_limit_sets pre f s : opt_state pre = Some f -> short_decimal s = tr
 Proof.
   intros Hp Hs. rewrite (opt_state_snoc _ _ _ Hp).
   assert (Hin : In "inline-limit" (map rname float_rows)) by (vm_compute; tauto).
-  destruct (toggle_rows_names (float_ok "=") float_rows "inline-limit" floats_eq Hin) as [r [Hr H]].
+  apply in_map_iff in Hin. destruct Hin as [r [Hr Hi]].
+  pose proof floats_eq as H. rewrite Forall_forall in H. specialize (H r Hi).
   specialize (H f s). rewrite Hr in H.
   change ("-Q" ++ "inline-limit" ++ "=" ++ s) with ("-Qinline-limit=" ++ s) in H.
   destruct (opt_arg f ("-Qinline-limit=" ++ s)) as [f'|]; [|contradiction].
@@ -330,9 +335,7 @@ Lemma last_toggle_wins pre f p : opt_state pre = Some f -> In p plain_names ->
 Proof.
   intros Hp Hin.
   assert (Hf : In p flag_names).
-  { unfold plain_names, plain_rows in Hin. rewrite flag_names_rows.
-    apply in_map_iff in Hin. destruct Hin as [r [Hr Hi]]. apply filter_In in Hi.
-    apply in_map_iff. exists r. tauto. }
+  { apply plain_in_flag. exact Hin. }
   split.
   - destruct (single_on pre f p Hp Hin) as [f1 [H1 [Hs1 _]]].
     destruct (single_off _ f1 p H1 Hf) as [f2 [H2 [Hs2 _]]].
@@ -363,17 +366,17 @@ Lemma isolated_trace pre f p : opt_state pre = Some f -> In p plain_names ->
   exists f' r, opt_state (pre ++ [level_arg 0; "-Q" ++ p]) = Some f' /\ In r opt_ctl /\ rname r = p /\
                trace f' = Some (flat_map (steps_of 1 [rvar r]) pipeline).
 Proof.
-  intros Hp Hin. unfold plain_names in Hin. apply in_map_iff in Hin. destruct Hin as [r [Hr Hi]].
+  intros Hp Hin. rewrite plain_names_rows in Hin. apply in_map_iff in Hin. destruct Hin as [r [Hr Hi]].
   pose proof isolated_traces as T. rewrite Forall_forall in T. specialize (T r Hi f).
-  change (pre ++ [level_arg 0; "-Q" ++ p]) with (pre ++ [level_arg 0] ++ ["-Q" ++ p]).
-  rewrite app_assoc.
+  assert (Happ : forall a b : string, (pre ++ [a; b] = (pre ++ [a]) ++ [b])%list)
+    by (intros a b; rewrite <- app_assoc; reflexivity).
+  rewrite Happ.
   destruct (opt_arg f (level_arg 0)) as [f1|] eqn:E1; [|contradiction].
   assert (H1 : opt_state (pre ++ [level_arg 0]) = Some f1) by (rewrite (opt_state_snoc _ _ _ Hp); exact E1).
   rewrite (opt_state_snoc _ _ _ H1). rewrite <- Hr.
   destruct (opt_arg f1 ("-Q" ++ rname r)) as [f2|]; [|contradiction].
   exists f2, r. split; [reflexivity|]. split; [|split; [reflexivity|exact T]].
-  unfold plain_rows, flag_rows in Hi. apply filter_In in Hi. destruct Hi as [Hi _].
-  apply filter_In in Hi. tauto.
+  pose proof plain_rows_in_ctl as P. rewrite Forall_forall in P. apply P. exact Hi.
 Qed.
 
 (* with everything off nothing but the unconditional steps runs *)
